@@ -21,7 +21,7 @@
 (***************************************************************************)
 EXTENDS RA_SqlSem, Json
 
-CONSTANTS MaxXfers, Emit
+CONSTANTS MaxXfers, MaxMid, Emit
 
 VARIABLES ei, ef, hist, rel, final
 vars == <<ei, ef, hist, rel, final>>
@@ -37,12 +37,22 @@ LeafF(e) == Wrap(Leaf("F", e, {"a", "c"}, 3, 3))
 Init == /\ ei \in Engines /\ ef \in Engines
         /\ hist = <<>> /\ rel = LeafI(ei) /\ final = FALSE
 
-Transfer == /\ ~final /\ Len(hist) < MaxXfers
+Transfer == /\ ~final
+            /\ Cardinality({i \in DOMAIN hist : hist[i].f = "xfer"}) < MaxXfers
             /\ \E dest \in Engines \ {Eng(rel)} :
                  LET r == TransferTo(rel, dest) IN
                  /\ ~IsErr(r)
                  /\ rel' = r /\ hist' = Append(hist, [f |-> "xfer", dest |-> dest])
             /\ UNCHANGED <<ei, ef, final>>
+
+\* operations that keep a join identity a join identity (one row, no columns): they put operation
+\* nodes and a locked materialization between the identity leaf, the transfers and the final join
+Mid == /\ ~final /\ Cardinality({i \in DOMAIN hist : hist[i].f # "xfer"}) < MaxMid
+       /\ \E c \in {[f |-> "un", op |-> Dedup], [f |-> "un", op |-> Slice(0, 1)], [f |-> "mat", name |-> "m1"]} :
+            LET r == IF c.f = "mat" THEN Materialize(rel, c.name) ELSE ApplyUnary(c.op, rel, DefaultOpts) IN
+            /\ ~IsErr(r) /\ r # rel
+            /\ rel' = r /\ hist' = Append(hist, c)
+       /\ UNCHANGED <<ei, ef, final>>
 
 JoinCalls == {[f |-> "pjoin", lhs |-> side, pref |-> p, backtrack |-> bt, transfer |-> tr] :
                  side \in BOOLEAN, p \in Engines \cup {"none"}, bt \in BOOLEAN, tr \in BOOLEAN}
@@ -58,7 +68,7 @@ FinalJoin == /\ ~final
              /\ final' = TRUE
              /\ UNCHANGED <<ei, ef>>
 
-Next == Transfer \/ FinalJoin
+Next == Transfer \/ Mid \/ FinalJoin
 Spec == Init /\ [][Next]_vars
 
 WF == WellFormed(rel)
